@@ -391,6 +391,45 @@ def _discharge_by_valueset(fn, s):
     return None
 
 
+MEM_ITERS = ("str::iter::Chars", "str::iter::CharIndices", "slice::iter::Iter", "slice::iter::IterMut", "vec::into_iter::IntoIter", "str::iter::Bytes",
+             "hash::map::Iter", "hash::map::Values", "hash::map::Keys", "btree::map::Iter")
+
+
+def bounded_counter(fn, block, ops):
+    """`c + 1` where c is phi(small const | c + 1) of an unsigned 64-bit-or-wider local, and the addition can only be
+    reached again by passing an Iterator::next call on an iterator over data held in memory."""
+    if len(ops) != 2:
+        return False
+    c = ops[1].get("const")
+    l = _local_of(ops[0])
+    if not c or c.get("kind") != "int" or c.get("value") != 1 or l is None:
+        return False
+    l = _root_local(fn, l)
+    ty = fn.locals[l] if l < len(fn.locals) else ""
+    if ty not in ("usize", "u64", "u128"):
+        return False
+    e = deep_strip(fn.local_expr(l))
+    if e[0] != "phi":
+        return False
+    for a in e[1]:
+        a = deep_strip(a)
+        if a[0] == "const" and a[1] == "int" and isinstance(a[2], int) and 0 <= a[2] <= 65536:
+            continue
+        if a[0] == "field" and a[2] == "0":
+            a = deep_strip(a[1])
+        if a[0] == "bin" and a[1].replace("WithOverflow", "") == "Add" and deep_strip(a[2])[0] == "cycle" and deep_strip(a[3]) == ("const", "int", 1):
+            continue
+        return False
+    nexts = set()
+    for cs in fn.calls("core::iter::traits::iterator::Iterator::next"):
+        tys = " ".join(cs.t.get("arg_tys", []))
+        if any(m in tys for m in MEM_ITERS):
+            nexts.add(cs.block)
+    if not nexts or not fn.in_loop(block):
+        return False
+    return block not in fn.reach(block, avoid=nexts)
+
+
 def discharge_by_guard(p, s):
     """Returns a reason string if a dominating guard makes the site unreachable/unfailing."""
     fn = s.fn
@@ -444,6 +483,8 @@ def discharge_by_guard(p, s):
             if c and c.get("kind") == "int" and c.get("value") != -1:
                 return "constant divisor %s" % c.get("value")
             return None
+        if k == "Overflow(Add)" and bounded_counter(fn, s.block, s.t["ops"]):
+            return "a usize/u64 counter that starts at a small constant and is only ever incremented by 1, at most once per element taken from an in-memory iterator (it cannot exceed the number of elements)"
         if k == "Overflow(Add)":
             # (y - 1) + 1: the addend restores a value that existed; x's dominating definition is a checked `_ - 1`
             a, b = s.t["ops"]
